@@ -199,11 +199,14 @@ class TerminationCondition(object):
 
     def get_best_x(self, x: torch.Tensor) -> torch.Tensor:
         # usually user set maxiter == 0 just to wrap the minimizer backprop
-        if not self._ever_converge and self._max_i > -1:
-            msg = ("The minimizer does not converge after %d iterations. "
-                   "Best |dx|=%.4e, |df|=%.4e, f=%.4e" %
-                   (self._max_i, self._best_dxnorm, self._best_df, self._best_f))
-            warnings.warn(msg)
+        if self._max_i > -1:
+            if not self._ever_converge:
+                msg = ("The minimizer does not converge after %d iterations. "
+                       "Best |dx|=%.4e, |df|=%.4e, f=%.4e" %
+                       (self._max_i, self._best_dxnorm, self._best_df, self._best_f))
+                warnings.warn(msg)
+            # the last iterate has not been evaluated and can be worse than the initial guess,
+            # so return the evaluated point with the lowest objective
             assert isinstance(self._best_x, torch.Tensor)
             return self._best_x
         else:
